@@ -16,6 +16,7 @@
 // under the License.
 
 use crate::cast::*;
+use arrow_select::nullif::nullif;
 
 /// Converts a non-list array to a list array where every element is a single element
 /// list. `NULL`s in the original array become `[NULL]` (i.e. output list array
@@ -76,8 +77,17 @@ pub(crate) fn cast_single_element_fixed_size_list_to_values(
     to: &DataType,
     cast_options: &CastOptions,
 ) -> Result<ArrayRef, ArrowError> {
-    let values = array.as_fixed_size_list().values();
-    cast_with_options(values, to, cast_options)
+    let list = array.as_fixed_size_list();
+    match list.nulls().filter(|n| n.null_count() > 0) {
+        // a null list row is a null value: mask the child before casting so that the unspecified
+        // child slot below a null row neither shows up in the result nor fails the cast
+        Some(nulls) => {
+            let mask = BooleanArray::new(!nulls.inner(), None);
+            let values = nullif(list.values(), &mask)?;
+            cast_with_options(&values, to, cast_options)
+        }
+        None => cast_with_options(list.values(), to, cast_options),
+    }
 }
 
 fn cast_fixed_size_list_to_list_inner<OffsetSize: OffsetSizeTrait, const IS_LIST_VIEW: bool>(
